@@ -90,12 +90,103 @@ def xor_facts(eng, X, chain):
     return out
 
 
+def structure_independent(chk, fx, a, config, engh, H, engr, R, selfv, hx=None):
+    """clauses that do not depend on how the block loops are written: plaintext shape, identity, framing, acceptance"""
+    skip_plaintext = hx is None
+    if hx is None:
+        hx = []
+    # plaintext shape at the first MD5 of hide
+    from hiding import plaintext_facts
+    dests = set(x["dest"] for x in hx)
+    pf = plaintext_facts(engh, H, dests)
+    n_sh = len(pf)
+    allp = [p for f in pf for p in f["problems"] if "original-length" not in p]
+    shape_ok = not allp
+    why = "; ".join(sorted(set(allp))[:2]) or "no plaintext buffer found at the first key"
+    if skip_plaintext:
+        chk.notes.append("undecided clause (C11): hide's plaintext shape (its block loops are not understood)")
+    else:
+      chk.oblig(shape_ok and n_sh >= 39, "plaintext | hide", "hide plaintext shape: %s" % why,
+              {"rule": "len16 | payload | length padding | alignment prefix (0..15), total multiple of 16"},
+              {"obligation": "hide: plaintext = len16|value|lp|ap[..p], p in 0..15, |plaintext| = 16n >= 16", "paths": n_sh})
+    # identity on the other variant (hide); reveal's identity and framing are C13
+    hidden_idx = [i for i, (n, k, t) in enumerate(a.variants) if n == "Hidden"][0]
+    ident = False
+    for s, v in H.rets:
+        lo, hi = engh.bounds(s, Lin.sym("self#v"))
+        if lo == hi == hidden_idx:
+            ident = isinstance(v, VAdt) and v.base == "self" and not [e for e in s.events() if e[0] in ("md5", "w")]
+    chk.oblig(ident, "identity | hide(Hidden)", "hiding an already hidden AVP does not return it unchanged", {},
+              {"obligation": "hide(h) = h for Hidden h"})
+    # reveal: length read at offset 0, carve of total-6
+    okf = 0
+    for s, v in R.rets:
+        vi, p = result_parts(v)
+        if vi != 0 or not engr.ent(s, c_eq(selfv.vidx, Lin.const(hidden_idx))):
+            continue
+        from rules.c20 import be16_of_buffer
+        evs = [e for e in s.events() if e[0] in ("read", "sub", "skip")]
+        subs = [e for e in evs if e[0] == "sub"]
+        if not subs:
+            continue
+        sub = subs[0]
+        before = evs[:evs.index(sub)]
+        total = None
+        if before and before[0][0] == "read" and before[0][2] == 2:
+            d = before[0][5]
+            if isinstance(d, tuple) and len(d) >= 5 and isinstance(d[3], Lin) and d[3] == Lin.const(0):
+                total = before[0][3].lin
+        if total is None:
+            # length taken by indexing the buffer: total = 256*buf[0] + buf[1]
+            cand = sub[2].lin + 6
+            if be16_of_buffer(engr, cand):
+                total = cand
+        start_ok = len(sub) > 5 and isinstance(sub[5], Lin) and engr.ent(s, c_eq(sub[5], Lin.const(2)))
+        if total is not None and start_ok and engr.ent(s, c_eq(sub[2].lin + 6, total)):
+            okf += 1
+        else:
+            okf = -10 ** 6
+    # reveal accepts every original length that fits (what hide produces always fits)
+    over = []
+    n_len_err = 0
+    for s, v in R.rets:
+        vi, p = result_parts(v)
+        if vi == 1 and tables.variant_name(engr, p) == "InvalidOriginalAVPLength":
+            n_len_err += 1
+            reads = [e for e in s.events() if e[0] == "read"]
+            fs = engr.variant_fields(s, selfv, hidden_idx)
+            val = engr.variant_fields(s, fs[0], 0)[1]
+            ln = vec_len_of(engr, s, val)
+            if reads and ln is not None:
+                tot = reads[0][3].lin
+                fits = [c_le(Lin.const(6), tot), c_le(tot, Lin.const(1023)), c_le(tot - 6, ln - 2)]
+                if layout.conj_feasible(engr, s, fits):
+                    over.append(s.notes()[-3:])
+    chk.oblig(not over and n_len_err >= 1, "accept | reveal | original length",
+              "reveal can reject (InvalidOriginalAVPLength) an original length that fits inside the decrypted value: %s" % over[:1],
+              {"rule": "6 <= total <= 1023 and total-6 <= |value|-2  =>  not rejected for its length", "paths": over[:3]},
+              {"obligation": "reveal rejects an original length only when it does not fit", "rejecting_paths": n_len_err})
+    chk.oblig(okf >= 39, "framing | reveal", "reveal does not read the original length at offset 0 and carve exactly length-6 octets after it", {},
+              {"obligation": "reveal: inverse framing of hide's plaintext", "paths": okf})
+
+
+
 def run_config(chk, config):
     fx = chk.facts(config)
     a = Anchors(chk, fx)
     if not (a.need("avp_hide", "avp_reveal") and a.need_floors()):
         return
     engh, H, engr, R, selfv = extract_pair(chk, fx, a, config)
+    from hiding import unrecognised_keys
+    unrec = {"hide": unrecognised_keys(engh, H), "reveal": unrecognised_keys(engr, R)}
+    if unrec["hide"] or unrec["reveal"]:
+        for n_, u in unrec.items():
+            if u:
+                chk.notes.append("undecided clauses (C11): the MD5 inputs of %s are not understood (%s); its key / XOR / chaining / "
+                                 "coverage clauses are not decided" % (n_, "; ".join(u)[:160]))
+        chk.extra["construction_not_understood"] = {k: v for k, v in unrec.items() if v}
+        hx_ = xor_facts(engh, H, key_facts(engh, H)[1]) if not unrec["hide"] else None
+        return structure_independent(chk, fx, a, config, engh, H, engr, R, selfv, hx_)
     hf, hc = key_facts(engh, H)
     rf, rc = key_facts(engr, R)
     want_first = {(("type16",), ("arg", "secret"), ("arg", "random_vector.*.value"))}
@@ -181,76 +272,7 @@ def run_config(chk, config):
         chk.oblig(not cp, "coverage | %s" % name, "%s does not process every block/octet: %s" % (name, cp[:2]),
                   {"rule": "the blocks keyed by the chain are exactly blocks 1..n-1 (n = |buffer|/16); XOR over all 16 octets of a block", "problems": cp},
                   {"obligation": "%s: chain covers blocks 1..n-1, XOR loops cover 16 octets" % name})
-    # plaintext shape at the first MD5 of hide
-    from hiding import plaintext_facts
-    dests = set(x["dest"] for x in hx)
-    pf = plaintext_facts(engh, H, dests)
-    n_sh = len(pf)
-    allp = [p for f in pf for p in f["problems"] if "original-length" not in p]
-    shape_ok = not allp
-    why = "; ".join(sorted(set(allp))[:2]) or "no plaintext buffer found at the first key"
-    chk.oblig(shape_ok and n_sh >= 39, "plaintext | hide", "hide plaintext shape: %s" % why,
-              {"rule": "len16 | payload | length padding | alignment prefix (0..15), total multiple of 16"},
-              {"obligation": "hide: plaintext = len16|value|lp|ap[..p], p in 0..15, |plaintext| = 16n >= 16", "paths": n_sh})
-    # identity on the other variant (hide); reveal's identity and framing are C13
-    hidden_idx = [i for i, (n, k, t) in enumerate(a.variants) if n == "Hidden"][0]
-    ident = False
-    for s, v in H.rets:
-        lo, hi = engh.bounds(s, Lin.sym("self#v"))
-        if lo == hi == hidden_idx:
-            ident = isinstance(v, VAdt) and v.base == "self" and not [e for e in s.events() if e[0] in ("md5", "w")]
-    chk.oblig(ident, "identity | hide(Hidden)", "hiding an already hidden AVP does not return it unchanged", {},
-              {"obligation": "hide(h) = h for Hidden h"})
-    # reveal: length read at offset 0, carve of total-6
-    okf = 0
-    for s, v in R.rets:
-        vi, p = result_parts(v)
-        if vi != 0 or not engr.ent(s, c_eq(selfv.vidx, Lin.const(hidden_idx))):
-            continue
-        from rules.c20 import be16_of_buffer
-        evs = [e for e in s.events() if e[0] in ("read", "sub", "skip")]
-        subs = [e for e in evs if e[0] == "sub"]
-        if not subs:
-            continue
-        sub = subs[0]
-        before = evs[:evs.index(sub)]
-        total = None
-        if before and before[0][0] == "read" and before[0][2] == 2:
-            d = before[0][5]
-            if isinstance(d, tuple) and len(d) >= 5 and isinstance(d[3], Lin) and d[3] == Lin.const(0):
-                total = before[0][3].lin
-        if total is None:
-            # length taken by indexing the buffer: total = 256*buf[0] + buf[1]
-            cand = sub[2].lin + 6
-            if be16_of_buffer(engr, cand):
-                total = cand
-        start_ok = len(sub) > 5 and isinstance(sub[5], Lin) and engr.ent(s, c_eq(sub[5], Lin.const(2)))
-        if total is not None and start_ok and engr.ent(s, c_eq(sub[2].lin + 6, total)):
-            okf += 1
-        else:
-            okf = -10 ** 6
-    # reveal accepts every original length that fits (what hide produces always fits)
-    over = []
-    n_len_err = 0
-    for s, v in R.rets:
-        vi, p = result_parts(v)
-        if vi == 1 and tables.variant_name(engr, p) == "InvalidOriginalAVPLength":
-            n_len_err += 1
-            reads = [e for e in s.events() if e[0] == "read"]
-            fs = engr.variant_fields(s, selfv, hidden_idx)
-            val = engr.variant_fields(s, fs[0], 0)[1]
-            ln = vec_len_of(engr, s, val)
-            if reads and ln is not None:
-                tot = reads[0][3].lin
-                fits = [c_le(Lin.const(6), tot), c_le(tot, Lin.const(1023)), c_le(tot - 6, ln - 2)]
-                if layout.conj_feasible(engr, s, fits):
-                    over.append(s.notes()[-3:])
-    chk.oblig(not over and n_len_err >= 1, "accept | reveal | original length",
-              "reveal can reject (InvalidOriginalAVPLength) an original length that fits inside the decrypted value: %s" % over[:1],
-              {"rule": "6 <= total <= 1023 and total-6 <= |value|-2  =>  not rejected for its length", "paths": over[:3]},
-              {"obligation": "reveal rejects an original length only when it does not fit", "rejecting_paths": n_len_err})
-    chk.oblig(okf >= 39, "framing | reveal", "reveal does not read the original length at offset 0 and carve exactly length-6 octets after it", {},
-              {"obligation": "reveal: inverse framing of hide's plaintext", "paths": okf})
+    structure_independent(chk, fx, a, config, engh, H, engr, R, selfv, hx)
 
 
 def run(chk):
